@@ -7,6 +7,7 @@ import Signac.Md5
 import Signac.Wire
 import Signac.Workspace
 import Signac.Cache
+import Signac.Chunks
 open Signac Signac.Ws Signac.Cache
 
 def insertSorted (x : String) : List String → List String
@@ -121,6 +122,16 @@ def stepOp (s : St) (ts : List String) : Option (St × String) :=
     let (s', bad) := repair calcId s
     some (s', "repair=" ++ commaSorted bad ++ ";" ++ wsTok s')
   | ["ws"] => some (s, wsTok s)
+  | ["chunks", n, k] => do
+    -- `_split_and_print_progress(list(range(n)), num_chunks=k)`: the chunks as "first-last+1" ranges
+    let n ← n.toNat?
+    let k ← k.toNat?
+    pure (s, match Chunks.splitChunks (List.range n) k with
+      | none => "ValueError"
+      | some cs => " ".intercalate (cs.map fun c => toString (c.headD 0) ++ ":" ++ toString c.length))
+  | ["numchunks", n] => do
+    let n ← n.toNat?
+    pure (s, toString (Chunks.numChunks n))
   | _ => none
 
 def runLine (groups : List (List String)) : String :=
